@@ -353,13 +353,18 @@ class Body:
         return b in self.pdom and a in self.pdom[b]
 
     # ---- instruction iteration
-    def stmts(self):
+    def stmts(self, cleanup=False):
+        """statements of normal-path blocks (unwind/cleanup blocks only when asked)"""
         for bi, bl in enumerate(self.blocks):
+            if bl["cleanup"] and not cleanup:
+                continue
             for si, s in enumerate(bl["s"]):
                 yield bi, si, s
 
-    def calls(self):
+    def calls(self, cleanup=False):
         for bi, bl in enumerate(self.blocks):
+            if bl["cleanup"] and not cleanup:
+                continue
             t = bl["t"]
             if t["k"] == "call":
                 yield bi, t
